@@ -58,6 +58,7 @@ Inductive expr :=
 | ENot (e : expr)
 | EAnd (a b : expr)
 | EOr (a b : expr)
+| EIfExp (c a b : expr)               (* a if c else b *)
 | ETuple (es : list expr)
 | EArange (a b c : expr)              (* np.arange(a, b, c) *)
 | EOnesLike (e : expr)                (* np.ones(len(e)) *)
@@ -225,6 +226,7 @@ Fixpoint eval (fe : fenv) (e : expr) (en : locals) (nx : nat) (k : value -> nat 
   | ENot a => eval fe a en nx (fun v nx => truthy v (fun t => k (VBool (negb t)) nx))
   | EAnd a b => eval fe a en nx (fun va nx => truthy va (fun t => if t then eval fe b en nx k else k va nx))
   | EOr a b => eval fe a en nx (fun va nx => truthy va (fun t => if t then k va nx else eval fe b en nx k))
+  | EIfExp c a b => eval fe c en nx (fun vc nx => truthy vc (fun t => if t then eval fe a en nx k else eval fe b en nx k))
   | ETuple es =>
     (fix go (es : list expr) (nx : nat) (k : list value -> nat -> answer) {struct es} : answer :=
        match es with
